@@ -1,6 +1,7 @@
 import QV.Model.Compiler
 import QV.Proofs.Circuit
 import QV.Proofs.Bennett
+import QV.Props.C02
 /-!
 # C03 – Compiled circuits are clean: inputs preserved, scratch qubits back to zero
 
@@ -8,7 +9,12 @@ With uncomputation enabled, for every classical input the circuit leaves every a
 unchanged and every qubit that is neither an argument nor an output in state zero.
 
 Partial, as C02: `validateClean_sound` (per-instance validator, sound for all inputs) plus the
-universal replay lemmas the uncomputation protocol rests on.
+universal replay lemmas the uncomputation protocol rests on, plus – for every run of `compile`
+– the layout the cleanliness statement is phrased in: `compile_input_qubits` (the arguments sit
+on qubits `0..n-1`, nothing else is mapped there by name), `compile_outs_defined` (every return
+bit names a qubit of the circuit, so `outs` has one entry per return bit),
+`compile_args_not_scratch` (no argument qubit is in the ancilla / free / marked set) and
+`compile_replay_restores` (reverse replay of any compiled gate list restores every qubit).
 -/
 namespace QV.C03
 open QV QV.Compiler
@@ -87,5 +93,70 @@ example : ReplaySafe (fun q => q == 3) [{ cls := .CCX, wires := [0, 1, 2] }, { c
 /-- non-vacuity: compute-copy-uncompute of `a & b` is clean with output qubit 3 -/
 example : validateClean [{ cls := .CCX, wires := [0, 1, 2] }, { cls := .CX, wires := [2, 3] },
     { cls := .CCX, wires := [0, 1, 2] }] 4 2 [3] = true := by decide
+
+/-! ## Layout facts for every run of `compile` (proved in `QV/Proofs/CompilerInv.lean`) -/
+
+/-- the argument qubits the `Clean` statement talks about: for every run of `compile` on fresh
+argument names the `i`-th argument is on qubit `i`, i.e. `input_qubits = [0..n)` -/
+theorem compile_input_qubits (inputs : List String) (defs : List (String × BExp))
+    (ret : Option (List String)) (unc : Bool) (cs : List Nat) (s : CState)
+    (h : (compile inputs defs ret unc).run { choices := cs } = .ok ((), s))
+    (hf : C02.inputsFresh inputs defs = true) :
+    inputs.map (dictGet? s.qc.qmap) = (List.range inputs.length).map some ∧
+    inputs.length ≤ s.qc.numQubits := by
+  obtain ⟨hlen, hpos⟩ := C02.compile_inputs_first inputs defs ret unc cs s h hf
+  refine ⟨?_, hlen⟩
+  apply List.ext_getElem?
+  intro i
+  simp only [List.getElem?_map]
+  by_cases hi : i < inputs.length
+  · have hx : inputs[i]? = some inputs[i] := List.getElem?_eq_getElem hi
+    rw [hx]
+    simp [hi, hpos i _ hx]
+  · simp [hi]
+
+/-- the output qubits the `Clean` statement excludes: one qubit of the circuit per return bit -/
+theorem compile_outs_defined (inputs : List String) (defs : List (String × BExp))
+    (rets : List String) (unc : Bool) (cs : List Nat) (s : CState)
+    (h : (compile inputs defs (some rets) unc).run { choices := cs } = .ok ((), s))
+    (hr : C02.retsDefined defs rets = true) :
+    (rets.filterMap (dictGet? s.qc.qmap)).length = rets.length ∧
+    ∀ q ∈ rets.filterMap (dictGet? s.qc.qmap), q < s.qc.numQubits := by
+  have hm := C02.compile_rets_mapped inputs defs rets unc cs s h hr
+  constructor
+  · clear hr h
+    induction rets with
+    | nil => rfl
+    | cons r rs ih =>
+      obtain ⟨q, hq, _⟩ := hm r List.mem_cons_self
+      rw [List.filterMap_cons, hq]
+      simp only [List.length_cons]
+      rw [ih (fun r' hr' => hm r' (List.mem_cons_of_mem _ hr'))]
+  · intro q hq
+    obtain ⟨r, hr', hrq⟩ := List.mem_filterMap.mp hq
+    obtain ⟨q', hq', hlt⟩ := hm r hr'
+    rw [hq'] at hrq
+    cases hrq
+    exact hlt
+
+/-- no argument qubit is ever part of the scratch space: for every run of `compile`, a qubit
+below the number of inputs is neither an ancilla nor in the free set (so `get_free_ancilla`
+never hands one out and `uncompute_all` never records one as freed) -/
+theorem compile_args_not_scratch (inputs : List String) (defs : List (String × BExp))
+    (ret : Option (List String)) (unc : Bool) (cs : List Nat) (s : CState)
+    (h : (compile inputs defs ret unc).run { choices := cs } = .ok ((), s)) :
+    ∀ q, q < inputs.length → q ∉ s.qc.anc ∧ q ∉ s.qc.free ∧ q ∉ s.qc.marked := by
+  obtain ⟨_, _, _, _, _, _, h1, h2, h3⟩ := C02.compile_bookkeeping inputs defs ret unc cs s h
+  intro q hq
+  exact ⟨fun hm => Nat.not_le_of_lt hq (h1 q hm), fun hm => Nat.not_le_of_lt hq (h2 q hm),
+    fun hm => Nat.not_le_of_lt hq (h3 q hm)⟩
+
+/-- Bennett's principle applies to every compiled circuit: its gates are X/CX/MCX on distinct
+wires, so the body followed by its reverse restores every qubit -/
+theorem compile_replay_restores (inputs : List String) (defs : List (String × BExp))
+    (ret : Option (List String)) (unc : Bool) (cs : List Nat) (s : CState)
+    (h : (compile inputs defs ret unc).run { choices := cs } = .ok ((), s)) (st : BState) :
+    runClassical (s.qc.gates.toList ++ s.qc.gates.toList.reverse) st = st :=
+  C02.compile_reverse_replay_undoes inputs defs ret unc cs s h st
 
 end QV.C03
